@@ -246,6 +246,16 @@ class Program:
                             ci.slots = None
                     elif ci.is_enum:
                         ci.enum_members.append((st.targets[0].id, st.value))
+                elif isinstance(st, ast.Assign) and len(st.targets) == 1 and isinstance(st.targets[0], (ast.Tuple, ast.List)) \
+                        and isinstance(st.value, (ast.Tuple, ast.List)) and len(st.targets[0].elts) == len(st.value.elts) \
+                        and all(isinstance(t_, ast.Name) for t_ in st.targets[0].elts) \
+                        and not any(isinstance(v_, ast.Starred) for v_ in st.value.elts):
+                    # A, B = 1, 2 at class level
+                    for t_, v_ in zip(st.targets[0].elts, st.value.elts):
+                        ci.attrs[t_.id] = v_
+                elif isinstance(st, ast.Assign) and len(st.targets) > 1 and all(isinstance(t_, ast.Name) for t_ in st.targets):
+                    for t_ in st.targets:       # A = B = value
+                        ci.attrs[t_.id] = st.value
                 elif isinstance(st, ast.AnnAssign) and isinstance(st.target, ast.Name):
                     ci.fields.append((st.target.id, st.value))
                     if st.value is not None:
@@ -256,6 +266,11 @@ class Program:
             for t in node.targets:
                 if isinstance(t, ast.Name):
                     mi.assigns.setdefault(t.id, []).append(node.value)
+                elif isinstance(t, (ast.Tuple, ast.List)) and isinstance(node.value, (ast.Tuple, ast.List)) \
+                        and len(t.elts) == len(node.value.elts) and all(isinstance(x, ast.Name) for x in t.elts) \
+                        and not any(isinstance(v_, ast.Starred) for v_ in node.value.elts):
+                    for x, v_ in zip(t.elts, node.value.elts):      # A, B = 1, 2 at module level
+                        mi.assigns.setdefault(x.id, []).append(v_)
         elif isinstance(node, ast.AnnAssign):
             if isinstance(node.target, ast.Name) and node.value is not None:
                 mi.assigns.setdefault(node.target.id, []).append(node.value)
